@@ -3,6 +3,9 @@
 import json, subprocess
 
 TECH = "bounded symbolic execution of the real go/ssa of /repo (symgo) + SMT (z3/cvc5, QF_ABV+UF); counterexamples replayed natively"
+NOTES = {
+ "C13": " C13 specifically: only the map-order clause is decided; the schedule/CPU/concurrency clause is outside what this technique can reach and is not claimed.",
+}
 NOTE = ("trusted: go/packages+go/ssa lowering (x/tools v0.29.0), the symgo interpreter and its stubs (DESIGN.md §2.5: fmt/errors opaque, crc32 uninterpreted fold, "
         "sort as insertion sort over the real less, sync no-ops), z3 4.8.12 and cvc5 1.0 (any unknown/error = inconclusive, reported), go test for native replay. "
         "Bounds (templates, lengths, unwindings) are listed in the evidence file; zstd/lz4 are outside every claim.")
@@ -14,6 +17,11 @@ CHECKS = {
  "C04": ("for every window [start,end) with start<=end (64-bit symbolic), every log-time assignment, the enumerated topic sets, both iterators, three orders and nine spellings of the window, the solver shows the returned set is exactly the filter of the written messages", "DESIGN.md §4 C04"),
  "C10": ("for every byte string up to the stated length (length itself symbolic) each leaf parser is shown panic-free and within the allocation ceiling; (lexer step and indexed-reader units: see evidence bounds)", "DESIGN.md §4 C10"),
  "C08": ("for every log time (64 bit), every string/payload byte and the symbolic Skip* flags on the enumerated templates and multi-chunk files (incl. chunks that hold no message), the solver shows that Writer.Statistics, the statistics record and Info.Statistics equal the aggregates of what was written, that chunk index time ranges are exact, and that Info lists every channel, schema, chunk, attachment index and metadata index the configuration keeps", "DESIGN.md §4 C08"),
+ "C07": ("with every byte of one chunk's stored payload replaced by a fresh symbolic byte at once (any alteration that keeps the length), a validating lexer is shown to return the records before the damaged chunk unchanged and then an error or an invalid-chunk token, never a record of the damaged chunk; with an attachment's CRC-covered bytes replaced likewise, computed and stored attachment CRC are shown to differ. Under the stated ideal-checksum assumption", "DESIGN.md §4 C07"),
+ "C09": ("for every cut position (symbolic, the whole file covered by 16-byte cells) and every field value of the enumerated files, the solver shows that the lexer and the non-indexed iterator return a content-equal prefix of the uncut read, end with EOF or an error, never panic, and return every message of every chunk that lies completely before the cut", "DESIGN.md §4 C09"),
+ "C13": ("DECIDED PART ONLY (independence from map iteration and insertion order): for every permutation of every range over a map inside the writer and everything it calls, and every value of the symbolic map keys/values, the output bytes equal those of a fixed-order reference run. NOT decided: independence from CPU count, other goroutines and concurrent instances, race freedom (no scheduler model; see level_note)", "DESIGN.md §4 C13"),
+ "C14": ("for every index of the failing destination write (symbolic), every accepted byte count of that write up to the stated bound, sticky or transient, the solver shows that the API call during which the write failed returns a non-nil error, that no call panics and that the accepted bytes are a prefix of the fault-free output; and that an attachment source failing at any position or declaring any wrong size (64-bit symbolic) makes WriteAttachment return an error", "DESIGN.md §4 C14"),
+ "C15": ("for one short read at any read call (symbolic index and size), for 1/2/5-byte reads and for data delivered together with EOF, lexer, non-indexed and indexed iterators are shown to return exactly the plain read; for a sticky I/O error at any byte position (symbolic, whole file covered by cells) the records returned are a content-equal prefix and the terminal error is non-nil and not io.EOF", "DESIGN.md §4 C15"),
 }
 
 NA = {
@@ -35,7 +43,7 @@ for pid in props:
             "replay_cmd_template": "./check --replay {path}",
             "engine": "symgo",
             "level_claimed": {"category": "model_checking", "text": "bounded, symbolic: " + text + ". Holds within the bounds listed in the evidence; nothing is claimed outside them.", "design_ref": ref},
-            "level_note": NOTE,
+            "level_note": NOTE + NOTES.get(pid, ""),
             "technique": TECH,
         })
 na = [{"property_id": p, "reason": NA.get(p, PENDING)} for p in props if p not in CHECKS]
